@@ -7,7 +7,7 @@
    for every L >= 0, every history of calls and every position and kind of
    fault (oversize write, failed send, failed close, abandoned message). *)
 From Coq Require Import ZArith List Bool.
-From Tally Require Import Base.Obs Gen.Params Model.Udp Proof.UdpP.
+From Tally Require Import Base.ObsCore Gen.Params Model.Udp Proof.UdpP.
 Import ListNotations.
 Open Scope Z_scope.
 
